@@ -3,8 +3,9 @@ From LN Require Import Model.Emit Proofs.EmitP.
 
 (* every request module passes the request through `authenticate` iff the document declares security *)
 Theorem C14_every_request : forall h cfg o c, request_file h cfg o = Ok c ->
-  exists pre post sname output url method assigns,
-    c = pre ++ into_future_impl (has_security h) sname output url method assigns ++ post.
+  exists pre post sname output url assigns,
+    c = pre ++ into_future_impl (has_security h) sname output url (ts (o_method o)) assigns ++ post /\
+    make_url o = Ok url /\ print_plan (request_plan (o_params o)) = Ok assigns.
 Proof. exact request_calls_authenticate. Qed.
 Print Assumptions C14_every_request.
 Theorem C14_with_auth : forall sname output url method assigns,
